@@ -41,7 +41,7 @@ def run(rep, tier, seed):
         docs.append((f"wf:{c['src']}", xml, cfg))
     # programs of the Interp families (loops, reuse, scopes)
     for fam in ("loop", "reuse", "scope"):
-        rr = vlib.run_tlc("MC_Interp", interp.mc_cfg(fam, export=True, MaxNodes=3), f"c05-{fam}", workers=8, timeout=600)
+        rr = vlib.run_tlc("MC_Interp", interp.mc_cfg(fam, export=True, MaxNodes=2 if fam == "loop" else 3), f"c05-{fam}", workers=8, timeout=600)
         rep.add_tlc(rr, f"Interp.tla family {fam} (corpus)")
         pick = rnd.sample(rr.replay, min(len(rr.replay), 3000 if big else 500))
         for x in pick:
